@@ -248,7 +248,14 @@ fn mh_discrete_case(ctx: &Ctx, rep: &mut Report, case: u64, g: &mut Sm64) {
     let pmf: Vec<f64> = pmf.iter().map(|p| p / tot).collect();
     let reflect = kind != 2 || g.bool();
     let (r, n) = if ctx.thorough { (256, 8000) } else { (64, 3000) };
-    let seed = g.next_u64() >> 1;
+    // some seeds make a chain's derived seeds hit structurally special values (0, 2^62, 2^63, ...)
+    let kk = g.below(r) as u64;
+    let seed = match g.below(6) {
+        0 => u64::MAX.wrapping_sub(kk),
+        1 => (1u64 << 62).wrapping_sub(1).wrapping_sub(kk),
+        2 => (1u64 << 63).wrapping_sub(1).wrapping_sub(kk),
+        _ => g.next_u64() >> 1,
+    };
     let draw = |g: &mut Sm64| -> i32 {
         let u = g.f64();
         let mut c = 0.0;
